@@ -9,11 +9,11 @@ hashing differently, is_running() turning True again.
 """
 import os
 
-from harness.props import c01, c02_extra
+from harness.props import c01, c02_extra, c02_fault
 
 PROP = "C02"
 DRIVER = os.path.join("Driver", "C02.lean")
-DRIVER_MODULES = ["PsutilModel.Model.C02Gen", "PsutilModel.Spec.C01", "PsutilModel.Model.C01Driver"]
+DRIVER_MODULES = ["PsutilModel.Model.C02Fault", "PsutilModel.Model.C02Gen", "PsutilModel.Spec.C01", "PsutilModel.Model.C01Driver"]
 NEEDS_EXT = True
 TRUSTED = c01.TRUSTED[:4] + [
     "C02 object universe: objects built by Process(pid) and by process_iter() are modelled; objects of a Process subclass and psutil.Popen objects over a listed PID go through the same `_init` and are exercised by the correspondence only (families x:classes / x:hashes: mixed-class pairs in ==, != and is_running()); a psutil.Popen whose child was already reaped gets `_ident = (pid, None)` and `_gone = True` through `_ignore_nsp` — such objects, and objects returned by parent()/children()/parents()/wait_procs(), are outside the model and outside the correspondence",
@@ -33,6 +33,7 @@ MANIFEST = {
 def facts(snap, F):
     c01.all_facts(snap, F, skip=("windowCalls", "nativePidArgs"))     # C01-only obligations
     c02_extra.facts(snap, F)                                          # __eq__ / __ne__ / __hash__ / identity stores
+    c02_fault.facts(snap, F)                                          # path of a transient OSError of the stat read
 
 
 def correspond(ctx, res):
@@ -40,12 +41,18 @@ def correspond(ctx, res):
     lines = res.extra.get("driver_lines", 0)
     res.extra["driver_lines"] = 0
     c02_extra.correspond_extra(ctx, res, DRIVER, 480, 16000)
+    c02_fault.correspond_fault(ctx, res, DRIVER, 400, 12000)
     res.extra["driver_lines"] += lines
+    res.exhaustive = "%s; %s" % (res.exhaustive, res.extra.pop("exhaustive_fault"))
     res.rule += ("; C02's own families on top (x:classes: objects of a Process subclass and psutil.Popen objects mixed with "
                  "Process objects; x:globals: pids()/pid_exists()/cpu_percent()/!=/set()/dict keys/== with foreign "
                  "types between the calls; x:hashes: hash() right after construction and at the end; x:btime0: published boot "
                  "time 0 and later clock steps, judged by the specification like every other family — the histories of the "
-                 "former finding C02-boottime-zero, fixed in /repo 29257b1)")
+                 "former finding C02-boottime-zero, fixed in /repo 29257b1; x:fault + exhaustive:fault: reads of /proc/<pid>/stat failing "
+                 "transiently — EMFILE/ENFILE/ENOMEM/EIO/EAGAIN/ETIMEDOUT at open() or at read(), on any PID, at any time — around "
+                 "is_running(), Process(pid), signals, setters, ppid, create_time, str, process_iter() sweeps cut short, PID reuse "
+                 "during the failing phase: is_running() may leave with the OS error while reads of the object's PID fail, an "
+                 "answer that is given must be the right one, and nothing may stick)")
 
 
 def search(ctx, res, broken):
